@@ -223,9 +223,15 @@ def main():
         v, tags = classify(h, r)
         if v == "violation" and plan.get("tag_filter"):
             # this property only owns some of the assertions of a shared harness; the others are decided under their own property
+            dropped = [t for t, d in tags if not re.fullmatch(plan["tag_filter"], t)]
             tags = [(t, d) for t, d in tags if re.fullmatch(plan["tag_filter"], t)]
             if not tags:
                 v = "pass"
+                # the failures that were filtered out belong to another property - but if they (or anything else) kept the harness from
+                # reaching its witnesses, nothing was decided here either: vacuous, never a pass
+                if r.get("covers_unsat", 0):
+                    v, tags = "inconclusive", [("vacuous", "%s unsatisfied after failures owned by another property: %s"
+                                                % (";".join(r.get("unsat_covers", [])), "; ".join(dropped)[:300]))]
         if v == "violation":
             unknown = []
             for tag, detail in tags:
